@@ -277,7 +277,7 @@ def run_c09(prop, prop_file, tier, seed):
 
 def c09_zone(c, d, mode, raw):
     """known findings specific to C09 identities (narrow)"""
-    if c["kind"] == "occ-map" and c["texts"][1].startswith("{0*1 "):
+    if c["kind"] == "occ-map" and c["texts"][1].startswith("{0*1 ") and mode == "json":
         return "kf-c09-map-explicit-0star1-not-optional"
     if c["kind"] == "prelude" and mode == "json" and "#" in c["texts"][1]:
         return "kf-c09-json-hash-types-unsupported"
